@@ -757,6 +757,33 @@ func Establishes(from, to *ssa.BasicBlock, p Pred) bool {
 		}
 		break
 	}
+	if ph, ok := cond.(*ssa.Phi); ok && ph.Block() == from {
+		// `a && b` / `a || b` in value position: on the edge where φ is true every incoming value
+		// that is not the constant false was true (and conversely); the walker prunes the
+		// infeasible constant edges (see feasible()).
+		n := 0
+		for _, e := range ph.Edges {
+			if c, isC := e.(*ssa.Const); isC && c.Value != nil && c.Value.Kind() == constant.Bool {
+				if constant.BoolVal(c.Value) == neg {
+					continue // this incoming value cannot produce the edge taken
+				}
+				return false // constant that takes this edge unconditionally: nothing established by it
+			}
+			ev, eneg := e, neg
+			for {
+				if u, ok := ev.(*ssa.UnOp); ok && u.Op == token.NOT {
+					ev, eneg = u.X, !eneg
+					continue
+				}
+				break
+			}
+			if !p.holds(ev, eneg) {
+				return false
+			}
+			n++
+		}
+		return n > 0
+	}
 	return p.holds(cond, neg)
 }
 
